@@ -177,6 +177,9 @@ func (p *Program) loopHeaders(f *ssa.Function) []*ssa.BasicBlock {
 		body := loopBody(h)
 		for b := range body {
 			for _, in := range b.Instrs {
+				if _, isPhi := in.(*ssa.Phi); isPhi {
+					continue // a phi carries the position of the variable's declaration, possibly outside the loop
+				}
 				if in.Pos().IsValid() && int(in.Pos()) < best {
 					best = int(in.Pos())
 				}
